@@ -133,6 +133,8 @@ inductive IStmt where
   | assignLit (x : Nat) (v : Int)        -- `x = 200;`
   | assignVar (x y : Nat)                -- `x = y;`
   | declCmp (o : Op2) (x y : Nat)        -- `Bit t = (x == y);` (t is an ordinary signal)
+  | reg (e : Expr)                       -- `auto t = reg(e);`        clocked: the register's ENABLE input is the observed effect
+  | memW (addr d : Expr)                 -- `mem[addr] = d;`          clocked: the write port's wrEnable input is the observed effect
   deriving Repr
 
 /-- statement list in continuation form (last argument = the statements that follow) -/
@@ -145,7 +147,8 @@ inductive Prog where
   | elseS (body : Prog) (k : Prog)                      -- `ELSE { body }`
   | elseifS (c : Expr) (body : Prog) (k : Prog)         -- `ELSEIF (c) { body }`      one scope (macro)
   | elseIf2 (c : Expr) (body : Prog) (k : Prog)         -- `ELSE IF (c) { body }`     ELSE scope around an IF scope
-  | istmt (s : IStmt) (k : Prog)                        -- integer-literal variables: outside `run` / `build`, see `runX` / `buildX`
+  | istmt (s : IStmt) (k : Prog)                        -- integer-literal variables, registers, memory writes: outside `run` / `build`, see `runX` / `buildX`
+  | enif (c : Expr) (body : Prog) (k : Prog)            -- `ENIF (c) { body }` (EnableScope): see `runX` / `buildX`
   deriving Repr
 
 /-! ## Specification: the sequential interpreter -/
@@ -238,7 +241,8 @@ def run : Prog → List Val → Option Bool → Option (List Val)
         let vc ← evalE env c
         let env' ← if truthy vc then dropLocals env.length (run body env none) else some env
         run k env' (some (truthy vc))
-  | .istmt _ _, _, _ => none     -- integer-literal variables: see `runX` (C05/ModelX.lean)
+  | .istmt _ _, _, _ => none     -- integer-literal variables, registers, memory writes: see `runX` (C05/ModelX.lean)
+  | .enif _ _ _, _, _ => none    -- enable scopes: see `runX`
 
 /-! ## The netlist -/
 
@@ -586,7 +590,8 @@ def build : Prog → BState → Option BState
       let B4 ← popScope B3 B.sigs.length
       let B5 ← popScope B4 B.sigs.length
       build k B5
-  | .istmt _ _, _ => none        -- integer-literal variables: see `buildX` (C05/ModelX.lean)
+  | .istmt _ _, _ => none        -- integer-literal variables, registers, memory writes: see `buildX` (C05/ModelX.lean)
+  | .enif _ _ _, _ => none       -- enable scopes: see `buildX`
 
 /-- the design before the first statement: one input pin per entry of `ins`, each read into a variable (`UInt v = pinIn(w)`) -/
 def initState (ins : List Ty) : BState :=
